@@ -328,9 +328,12 @@ def base_env(prog, d, bs):
 def queries(d, what, rnd):
     if what == "rank":
         mn, mx = d["min"], d["max"]
-        out = [mn, mx, rnd.uniform(mn, mx), rnd.uniform(mn, mx), mn - 1.0, mx + 1.0]
+        def mix(u):
+            return mn * (1.0 - u) + mx * u          # no overflow for huge ranges
+        out = [mn, mx, mix(rnd.random()), mix(rnd.random()), mn - 1.0, mx + 1.0]
         out += [c["mean"] for c in d["c"]]
-        out += [(a["mean"] + b["mean"]) / 2 for a, b in zip(d["c"], d["c"][1:])]
+        out += [a["mean"] / 2 + b["mean"] / 2 for a, b in zip(d["c"], d["c"][1:])]
+        out += [a["mean"] * 0.1 + b["mean"] * 0.9 for a, b in zip(d["c"], d["c"][1:])]
         return out
     W = d["W"]
     out = [rnd.random(), rnd.random(), 0.0, 1.0, 1.0 / W, (W - 1.0) / W, 0.5 / W, (W - 0.5) / W]
@@ -361,7 +364,16 @@ def run(prog, ctx):
         for n_ in (2, 3, 5):
             ws_ = [rnd.choice([1, 2, 3, 4, 7, 20]) for _ in range(n_)]
             const_digests.append({"n": n_, "min": v, "max": v, "W": sum(ws_), "c": [{"mean": v, "weight": w_} for w_ in ws_]})
-    digests = const_digests + digests
+    # finite values of huge magnitude on both sides of zero (differences and weight products overflow f64)
+    huge_digests = []
+    for n_ in (2, 3, 5, 8):
+        for top in (1.7e308, 9e307):
+            ws_ = [1] + [rnd.choice([2, 7, 40, 300]) for _ in range(n_ - 2)] + [1]
+            ms_ = [-top * (1.0 - i_ / (n_ - 1.0)) + top * (i_ / (n_ - 1.0)) for i_ in range(n_)]
+            huge_digests.append({"n": n_, "min": ms_[0], "max": ms_[-1], "W": sum(ws_), "c": [{"mean": m_, "weight": w_} for m_, w_ in zip(ms_, ws_)]})
+            ws2 = [rnd.choice([3, 50]) for _ in range(n_)]
+            huge_digests.append({"n": n_, "min": -top, "max": top, "W": sum(ws2), "c": [{"mean": m_ * 0.5, "weight": w_} for m_, w_ in zip(ms_, ws2)]})
+    digests = const_digests + huge_digests + digests
     n_sites = 0
     clamps = {"rank0": 0, "rank1": 0, "qmin": 0, "qmax": 0}
     clamp_bad = {}
